@@ -417,6 +417,97 @@ func TestPropRegexWithoutExample(t *testing.T) {
 	}
 }
 
+// ---- sizes: the one dimension besides depth that generators of "typical" inputs never reach - many values,
+// many layers of types, long chains of references. Every case runs the whole oracle under its watchdog.
+func TestPropSizes(t *testing.T) {
+	registerAll()
+	ev.KeepFirst("sizes")
+	var cases []Case
+	// enum rules of 7 ... 300 values (whatever is kept in a fixed array, an index built at a threshold ...)
+	for _, n := range []int{7, 8, 9, 15, 16, 17, 31, 32, 33, 64, 65, 100, 300} {
+		var b, q strings.Builder
+		b.WriteString("[")
+		q.WriteString("[\n")
+		for i := 0; i < n; i++ {
+			if i > 0 {
+				b.WriteString(", ")
+				q.WriteString(",\n")
+			}
+			fmt.Fprintf(&b, "%d", i)
+			fmt.Fprintf(&q, "  \"v%d\" // value %d", i, i)
+		}
+		b.WriteString("]")
+		q.WriteString("\n]")
+		cases = append(cases, Case{Entry: "enum", Text: b.String()}, Case{Entry: "enum", Text: q.String()},
+			Case{Entry: "project", Project: &sut.Project{Root: "0 // {enum: " + b.String() + "}"}})
+	}
+	// layers of two types each, every type a nullable choice of the two types of the next layer: 2^layers
+	// reference paths over 2*layers types (a walk has to remember what it has seen)
+	for _, layers := range []int{4, 12, 20, 23} {
+		var types []sut.Named
+		for i := 0; i < layers; i++ {
+			for _, ab := range []string{"a", "b"} {
+				text := "1"
+				if i+1 < layers {
+					text = fmt.Sprintf("@l%da | @l%db // {nullable: true}", i+1, i+1)
+				}
+				types = append(types, sut.Named{Name: fmt.Sprintf("@l%d%s", i, ab), Text: text})
+			}
+		}
+		cases = append(cases, Case{Entry: "project", Project: &sut.Project{Root: "@l0a | @l0b", Types: types}})
+	}
+	// a chain of distinct types, each requiring the next (no recursion: the depth of the references is the point)
+	for _, n := range []int{30, 63, 64, 65, 66, 130, 300} {
+		var types []sut.Named
+		for i := 1; i <= n; i++ {
+			text := "{\n  \"leaf\": 1\n}"
+			if i < n {
+				text = fmt.Sprintf("{\n  \"n\": @t%d\n}", i+1)
+			}
+			types = append(types, sut.Named{Name: fmt.Sprintf("@t%d", i), Text: text})
+		}
+		cases = append(cases, Case{Entry: "project", Project: &sut.Project{Root: "{\n  \"n\": @t1\n}", Types: types}})
+	}
+	var n, bad int64
+	for i, c := range cases {
+		if !ev.Mine(i) {
+			continue
+		}
+		c := c
+		ev.GuardFast("sizes", c)
+		n++
+		ev.NonTrivial("sizes", fmt.Sprint(i))
+		t0 := time.Now()
+		v := oracle(c)
+		if el := time.Since(t0); v == nil && el > 8*time.Second {
+			// every input of this table is a few kilobytes and takes the library micro- to milliseconds: eight
+			// seconds are three to six orders of magnitude, on whatever machine
+			v = ev.V("sizes:slow", "all operations on an input of %d bytes took %s", caseSize(c), el.Round(time.Second))
+		}
+		if v != nil && ev.Report("sizes", c, v) {
+			bad++
+		}
+	}
+	ev.UnguardFast()
+	ev.Count("sizes", n)
+	ev.Sample("sizes", cases[0])
+	ev.Exhaustive("sizes", "enum rules of 7-300 values (compact, annotated, inline); 4-26 layers of pairwise choice types; chains of 30-300 distinct types")
+	if bad > 0 {
+		t.Errorf("VIOLATION-CANDIDATE sizes: %d", bad)
+	}
+}
+
+func caseSize(c Case) int {
+	n := len(c.Text)
+	if c.Project != nil {
+		n += len(c.Project.Root)
+		for _, t := range c.Project.Types {
+			n += len(t.Text)
+		}
+	}
+	return n
+}
+
 func TestPropDeep(t *testing.T) {
 	registerAll()
 	ev.KeepFirst("deep")
@@ -462,6 +553,7 @@ func registerAll() {
 	ev.Register("strings", judgedStrings)
 	ev.Register("rich", judgedRich)
 	ev.Register("deep", oracle)
+	ev.Register("sizes", oracle)
 	ev.Register("regex-without-example", oracle)
 	ev.Register("tokens", oracle)
 	ev.Register("corpus", oracle)
